@@ -16,6 +16,7 @@
 -/
 import HL.Lemmas.Refs
 import HL.Lemmas.WsDocs
+import HL.Model.Pipeline
 namespace HL.Props.C09
 open HL HL.Ast HL.Refs HL.Spec.Occ HL.Lemmas.Refs
 
@@ -448,14 +449,34 @@ def fileCode : FileT :=
     spans := [sp .payee shop 0 16 20, sp .account ab 1 2 5] }
 
 def aB : Bytes := [65, 32, 66]   -- A B
-/-- `commodity "A B"` / `2024-01-01 Shop` / `  a:b  1 "A B"`: the directive's name range is as
-    long as the symbol, the lexeme has two quotes more. -/
+/-- `commodity "A B"` / `2024-01-01 Shop` / `  a:b  1 "A B"`: the parser records the token's End
+    for the commodity of the directive (fix-quoted-commodity-directive.diff), as it does for the
+    commodity of the posting: both ranges include the quotes. -/
 def fileQuoted : FileT :=
   { path := "a.journal",
     tree := { transactions := [txn (R 2 1 2 11) shop [post ⟨ab, R 3 3 3 6⟩ (some (amt aB (R 3 10 3 15)))]],
-              directives := [.commodity ⟨aB, .left, R 1 11 0 0⟩ [] [] [] (R 1 1 2 1)],
+              directives := [.commodity ⟨aB, .left, R 1 11 1 16⟩ [] [] [] (R 1 1 2 1)],
               comments := [], includes := [] },
     spans := [sp .commodity aB 0 10 15 true, sp .payee shop 1 11 15, sp .account ab 2 2 5, sp .commodity aB 2 9 14] }
+
+/-- The same file with the tree of the parser as pinned: the directive's commodity has no End,
+    the server derives a range as long as the symbol; the lexeme has two quotes more. -/
+def fileQuotedPinned : FileT :=
+  { fileQuoted with
+    tree := { fileQuoted.tree with directives := [.commodity ⟨aB, .left, R 1 11 0 0⟩ [] [] [] (R 1 1 2 1)] } }
+
+/-- `P 2024-01-01 "😀" 2 USD` / `2024-01-02 Shop` / `  a:😀  1 "😀"`: a priced symbol outside the BMP,
+    in the posting after another such character. -/
+def grin : Bytes := [0xF0, 0x9F, 0x98, 0x80]
+def filePriceNB : FileT :=
+  { path := "a.journal",
+    tree := { transactions := [txn (R 2 1 2 11) shop [post ⟨aGrin, R 3 3 3 6⟩ (some (amt grin (R 3 10 3 13)))]],
+              directives := [.price ⟨2024, 1, 1, R 1 3 1 13⟩ ⟨grin, .left, R 1 14 1 17⟩
+                               (amt usd (R 1 20 1 23)) (R 1 1 1 23)],
+              comments := [], includes := [] },
+    spans := [sp .commodity grin 0 13 17, sp .commodity usd 0 20 23, sp .payee shop 1 11 15,
+              sp .account aGrin 2 2 6, sp .commodity grin 2 10 14],
+    lns := ["P 2024-01-01 \"😀\" 2 USD".toList, "2024-01-02 Shop".toList, "  a:😀  1 \"😀\"".toList, []] }
 
 def usdL : Bytes := [117, 115, 100]   -- usd
 /-- `2024-01-01 Shop` / `  a:b  1 usd  ; c`: a lower-case commodity is a free-text token that
@@ -531,13 +552,77 @@ theorem payee_range_estimate_counterexample :
          l ∉ occurrences [(fileCode.path, fileCode.spans)] .payee shop true :=
   ⟨by decide, ⟨"a.journal", ⟨⟨0, 11⟩, ⟨0, 15⟩⟩⟩, by decide, by decide⟩
 
-/-! #### Known finding `quoted-commodity-directive` -/
+/-! #### The defect repaired by fix-quoted-commodity-directive.diff (finding `quoted-commodity-directive`)
 
-theorem quoted_commodity_directive_counterexample :
-    faithfulB fileQuoted.lns fileQuoted.tree fileQuoted.spans = false ∧
-    ∃ l, l ∈ findReferences noTexts .commodity aB (some (single fileQuoted)) fileQuoted.path none true ∧
-         l ∉ occurrences [(fileQuoted.path, fileQuoted.spans)] .commodity aB true :=
-  ⟨by decide, ⟨"a.journal", ⟨⟨0, 10⟩, ⟨0, 13⟩⟩⟩, by decide, by decide⟩
+The tree recorded only where the commodity of a `commodity` / `P` directive starts and the
+server derived the end from the symbol's length: two short when the lexeme is written in quotes.
+The repaired parser records the token's End, the repaired server reads it: the tree is faithful,
+the directive site is listed with the range of its whole lexeme — the same convention as at the
+posting — and a rename replaces the whole lexeme at both sites. -/
+
+theorem pinned_quoted_commodity_directive_counterexample :
+    faithfulB fileQuotedPinned.lns fileQuotedPinned.tree fileQuotedPinned.spans = false ∧
+    (∃ l, l ∈ findReferences noTexts .commodity aB (some (single fileQuotedPinned)) fileQuotedPinned.path none true ∧
+          l ∉ occurrences [(fileQuotedPinned.path, fileQuotedPinned.spans)] .commodity aB true) ∧
+    -- the rename edit 0:10–0:13 leaves `B"` behind
+    (∀ new : List Char, applyEditsBackwards "commodity \"A B\"".toList [(10, 13)] new =
+        "commodity ".toList ++ new ++ "B\"".toList) :=
+  ⟨by decide, ⟨⟨"a.journal", ⟨⟨0, 10⟩, ⟨0, 13⟩⟩⟩, by decide, by decide⟩,
+   fun new => by rw [rename_substitutes _ _ _ (by simp [spansOK])]; simp [substSpans]⟩
+
+/-- The tree of the repaired parser is faithful; references — from the posting, from the
+    directive, with the cursor given on either quote or inside — lists both sites with their
+    whole lexemes; prepareRename offers the whole lexeme. -/
+theorem quoted_commodity_directive_exact :
+    faithfulB fileQuoted.lns fileQuoted.tree fileQuoted.spans = true ∧
+    guardsOff ⟨fileQuoted, []⟩ (single fileQuoted) = true ∧
+    (∀ ch ∈ [10, 12, 15], references (requestFrom ⟨fileQuoted, []⟩ fileQuoted [] ⟨0, ch⟩) true =
+      [⟨"a.journal", ⟨⟨0, 10⟩, ⟨0, 15⟩⟩⟩, ⟨"a.journal", ⟨⟨2, 9⟩, ⟨2, 14⟩⟩⟩]) ∧
+    references (requestFrom ⟨fileQuoted, []⟩ fileQuoted [] ⟨2, 11⟩) true =
+      [⟨"a.journal", ⟨⟨0, 10⟩, ⟨0, 15⟩⟩⟩, ⟨"a.journal", ⟨⟨2, 9⟩, ⟨2, 14⟩⟩⟩] ∧
+    references (requestFrom ⟨fileQuoted, []⟩ fileQuoted [] ⟨2, 11⟩) false = [⟨"a.journal", ⟨⟨2, 9⟩, ⟨2, 14⟩⟩⟩] ∧
+    prepareRename (requestFrom ⟨fileQuoted, []⟩ fileQuoted [] ⟨0, 12⟩) = some ⟨⟨0, 10⟩, ⟨0, 15⟩⟩ := by
+  decide
+
+/-- The same for a `P` directive whose symbol lies outside the BMP (the text of the file is
+    needed to convert the columns): the priced commodity is reported at 0:13–0:17, `"😀"` with its
+    quotes in UTF-16 units. -/
+theorem quoted_price_directive_nonbmp_exact :
+    faithfulB filePriceNB.lns filePriceNB.tree filePriceNB.spans = true ∧
+    references (requestFrom ⟨filePriceNB, []⟩ filePriceNB [] ⟨2, 12⟩) false =
+      [⟨"a.journal", ⟨⟨0, 13⟩, ⟨0, 17⟩⟩⟩, ⟨"a.journal", ⟨⟨2, 10⟩, ⟨2, 14⟩⟩⟩] ∧
+    prepareRename (requestFrom ⟨filePriceNB, []⟩ filePriceNB [] ⟨0, 15⟩) = some ⟨⟨0, 13⟩, ⟨0, 17⟩⟩ := by
+  decide
+
+/-- **rename_substitutes for a quoted directive site.**  Rename from the declaration, any new
+    name: one edit per site, each with the range of the whole lexeme and the new name as its
+    text (the same new text at the directive and at the posting) … -/
+theorem rename_quoted_directive (new : Bytes) :
+    rename (requestFrom ⟨fileQuoted, []⟩ fileQuoted [] ⟨0, 12⟩) new =
+      some [("a.journal", [⟨⟨⟨0, 10⟩, ⟨0, 15⟩⟩, new⟩, ⟨⟨⟨2, 9⟩, ⟨2, 14⟩⟩, new⟩])] := by
+  have ht : findDefinitionTarget fileQuoted.lns fileQuoted.tree ⟨0, 12⟩ =
+      some ⟨.commodity, aB, ⟨⟨0, 10⟩, ⟨0, 15⟩⟩⟩ := by decide
+  have hr : findReferences (textsOf ⟨fileQuoted, []⟩) .commodity aB (some (resolvedOf ⟨fileQuoted, []⟩ []))
+      fileQuoted.path (some fileQuoted.tree) true =
+      [⟨"a.journal", ⟨⟨0, 10⟩, ⟨0, 15⟩⟩⟩, ⟨"a.journal", ⟨⟨2, 9⟩, ⟨2, 14⟩⟩⟩] := by decide
+  simp only [rename, requestFrom, ht, hr]
+  simp [Changes.add]
+
+/-- … and applying them replaces the whole lexeme, quotes included, and nothing else. -/
+theorem rename_quoted_directive_text (new : List Char) :
+    applyEditsBackwards "commodity \"A B\"".toList [(10, 15)] new = "commodity ".toList ++ new ∧
+    applyEditsBackwards "  a:b  1 \"A B\"".toList [(9, 14)] new = "  a:b  1 ".toList ++ new := by
+  constructor
+  · rw [rename_substitutes _ _ _ (by simp [spansOK])]; simp [substSpans]
+  · rw [rename_substitutes _ _ _ (by simp [spansOK])]; simp [substSpans]
+
+/-- Text in, spans out: the lexer and parser models (`parser.Parse`) on the witness of the former
+    finding, replays/C09/quoted-commodity-directive.jsonl, give a faithful tree. -/
+def quotedText : String := "commodity \"A B\"\n2024-01-01 Shop\n  a:b  1 \"A B\"\n"
+theorem quoted_commodity_directive_parsed_faithful :
+    faithfulB (HL.Text.lines quotedText.toList)
+      (HL.Pipeline.parseText Classes.go quotedText.toUTF8.toList).1 fileQuoted.spans = true := by
+  decide +kernel
 
 /-! #### Known finding `text-commodity-trailing-blank` -/
 
